@@ -315,7 +315,10 @@ fn feasible_histogram(ts: &[Vec<u8>], counts: &[i64]) -> bool {
 /// Triage helper: every centroid set P and assignment a such that a is a nearest-centroid
 /// assignment under P and the m_k-means update of (P, a) gives `ret` — i.e. the possible states
 /// "one update before the returned centroids". Solved exactly: P_c = (n_c + 1) ret_c - S_c.
-fn predecessors(met: Met, pts: &[Vec<f64>], ret: &[f64], k: usize, d: usize, num: &Num) -> Vec<(Vec<f64>, Vec<u8>)> {
+/// key: (bits of the returned centroids, full search?)
+type PredCache = HashMap<(Vec<u64>, bool), Vec<(Vec<f64>, Vec<u8>)>>;
+
+fn predecessors_pass(met: Met, pts: &[Vec<f64>], ret: &[f64], k: usize, d: usize, num: &Num, hint: Option<&[i64]>) -> Vec<(Vec<f64>, Vec<u8>)> {
     let n = pts.len();
     let total = (k as u64).checked_pow(n as u32).unwrap_or(u64::MAX);
     let mut out = Vec::new();
@@ -324,11 +327,21 @@ fn predecessors(met: Met, pts: &[Vec<f64>], ret: &[f64], k: usize, d: usize, num
     }
     let loose = num.tie * (n as f64 + 2.0);
     let mut assign = vec![0u8; n];
+    let mut hist = vec![0i64; k];
     for code in 0..total {
         let mut c = code;
+        for h in hist.iter_mut() {
+            *h = 0;
+        }
         for i in 0..n {
             assign[i] = (c % k as u64) as u8;
+            hist[assign[i] as usize] += 1;
             c /= k as u64;
+        }
+        if let Some(h) = hint {
+            if h != &hist[..] {
+                continue;
+            }
         }
         let mut p: Vec<f64> = ret.to_vec();
         let mut cn = vec![1.0f64; k];
@@ -603,6 +616,7 @@ fn check_model<F: Float, D: Distance<F>>(
     known_preds: Option<&[(Vec<f64>, Vec<u8>)]>,
     other_restart: Option<&Obs>,
     with_queries: bool,
+    pcache: &mut PredCache,
     viols: &mut Vec<Violation>,
     cnt: &mut Cnt,
 ) -> bool {
@@ -639,29 +653,39 @@ fn check_model<F: Float, D: Distance<F>>(
     // ---- reported inertia describes the returned centroids
     let ts = tie_sets(met, &env.pts, &obs.flat, k, d, num.tie);
     let want = cost(met, &env.pts, &obs.flat, k, d) / n as f64;
-    let mut preds_cache: Option<Vec<(Vec<f64>, Vec<u8>)>> = None;
-    let mut preds = |cnt: &mut Cnt| -> Vec<(Vec<f64>, Vec<u8>)> {
-        if preds_cache.is_none() {
-            preds_cache = Some(match known_preds {
-                Some(p) if !p.is_empty() => p.to_vec(),
-                _ => {
-                    cnt.add("predecessor_searches_for_triage", 1);
-                    predecessors(met, &env.pts, &obs.flat, k, d, num)
-                }
-            });
+    // candidates for "the state one update earlier" (triage only). `full == false`: the states of
+    // the reference trajectory when known, else only assignments whose histogram equals the
+    // reported counts (cheap, and the answer when inertia and counts lag together);
+    // `full == true`: all k^n assignments. Callers try the cheap list first.
+    let mut preds = |cnt: &mut Cnt, full: bool| -> Vec<(Vec<f64>, Vec<u8>)> {
+        if let (Some(p), false) = (known_preds, full) {
+            if !p.is_empty() {
+                return p.to_vec();
+            }
         }
-        preds_cache.clone().unwrap()
+        let key = (obs.flat.iter().map(|x| x.to_bits()).collect::<Vec<u64>>(), full);
+        if !pcache.contains_key(&key) {
+            cnt.add("predecessor_searches_for_triage", 1);
+            let hint: Vec<i64> = obs.counts.iter().map(|&c| c.round() as i64).collect();
+            let r = predecessors_pass(met, &env.pts, &obs.flat, k, d, num, if full { None } else { Some(&hint) });
+            pcache.insert(key.clone(), r);
+        }
+        pcache[&key].clone()
     };
     let loose_abs = num.tie * (n as f64 + 2.0);
     let loose_rel = num.rel * (n as f64 + 2.0);
     if !obs.inertia.is_finite() || obs.inertia < 0.0 {
         viols.push(Violation::new("kmeans.fit.inertia_not_finite_nonnegative", format!("inertia = {}", obs.inertia), env.cj(at.clone())));
     } else if !close(obs.inertia, want, num.rel, num.tie) {
-        let ps = preds(cnt);
-        let lagged: Vec<f64> = ps
-            .iter()
-            .map(|(p, a)| env.pts.iter().zip(a).map(|(x, &c)| rd(met, x, &p[c as usize * d..(c as usize + 1) * d])).sum::<f64>() / n as f64)
-            .collect();
+        let lag_of = |ps: &Vec<(Vec<f64>, Vec<u8>)>| -> Vec<f64> {
+            ps.iter()
+                .map(|(p, a)| env.pts.iter().zip(a).map(|(x, &c)| rd(met, x, &p[c as usize * d..(c as usize + 1) * d])).sum::<f64>() / n as f64)
+                .collect()
+        };
+        let mut lagged = lag_of(&preds(cnt, false));
+        if !lagged.iter().any(|&l| close(obs.inertia, l, loose_rel, loose_abs)) {
+            lagged = lag_of(&preds(cnt, true));
+        }
         if let Some(l) = lagged.iter().find(|&&l| close(obs.inertia, l, loose_rel, loose_abs)) {
             cnt.add("inertia_lagged_cases", 1);
             viols.push(Violation::new(
@@ -711,7 +735,7 @@ fn check_model<F: Float, D: Distance<F>>(
                 ),
                 env.cj(at.clone()),
             ));
-        } else if preds(cnt).iter().any(|(_, a)| hist_of(a) == ints) {
+        } else if preds(cnt, false).iter().any(|(_, a)| hist_of(a) == ints) || preds(cnt, true).iter().any(|(_, a)| hist_of(a) == ints) {
             cnt.add("counts_lagged_cases", 1);
             viols.push(Violation::new(
                 "kmeans.fit.cluster_count_is_membership_before_last_update",
@@ -843,6 +867,7 @@ fn run_traj<F: Float, D: Distance<F>>(case: &Case, dist: D, met: Met, viols: &mu
     };
 
     let mut prev_cost: Option<(usize, f64)> = None;
+    let mut pcache: PredCache = HashMap::new();
     for m in 1..=m_max {
         cnt.add("fits", 1);
         if nt {
@@ -905,6 +930,7 @@ fn run_traj<F: Float, D: Distance<F>>(case: &Case, dist: D, met: Met, viols: &mu
             if known.is_empty() { None } else { Some(&known) },
             None,
             m == 1 || m == m_max,
+            &mut pcache,
             viols,
             &mut cnt,
         );
@@ -952,6 +978,7 @@ fn run_seeded<F: Float, D: Distance<F>>(case: &Case, dist: D, met: Met, viols: &
         }
     };
     let seed_state = Xoshiro256Plus::seed_from_u64(case.seed);
+    let mut pcache: PredCache = HashMap::new();
     // single-restart fits of run 1, 2, .. R (run j starts from the generator state run j-1 left)
     let mut singles: Vec<Option<Obs>> = Vec::new();
     let mut state = seed_state.clone();
@@ -967,7 +994,7 @@ fn run_seeded<F: Float, D: Distance<F>>(case: &Case, dist: D, met: Met, viols: &
             Ok(model) => {
                 let obs = observe(&model);
                 let before = cnt.get("inertia_lagged_cases");
-                check_model(&env, &model, &obs, &at, true, None, None, j == 1, viols, &mut cnt);
+                check_model(&env, &model, &obs, &at, true, None, None, j == 1, &mut pcache, viols, &mut cnt);
                 if case.max_iter >= 300 {
                     // m_k-means on <= 8 points contracts by >= 1/9 per step: 300 updates are never reached
                     cnt.add("inertia_lagged_although_stopped_by_tolerance_not_by_cap", cnt.get("inertia_lagged_cases") - before);
@@ -999,7 +1026,7 @@ fn run_seeded<F: Float, D: Distance<F>>(case: &Case, dist: D, met: Met, viols: &
                 if last.is_some() {
                     cnt.add("multi_restart_fits_keeping_an_earlier_restart", 1);
                 }
-                check_model(&env, &model, &obs, &at, true, None, last, r == case.max_runs, viols, &mut cnt);
+                check_model(&env, &model, &obs, &at, true, None, last, r == case.max_runs, &mut pcache, viols, &mut cnt);
                 if let Some((pr, pi)) = prev_inertia {
                     cnt.add("restart_pairs_compared", 1);
                     if obs.inertia < pi {
@@ -1141,7 +1168,7 @@ fn main() {
 
     ctx.set_rule(&format!(
         "datasets: every multiset of 1..={n1} points of {{0..4}} (1-D, duplicates) and every subset of 1..={n2} points of the 3x3 lattice (2-D), \
-         under the affine images id, +1e3, x1e-3 (f32 and f64) and 1e3+1e-3x (f64 only); metrics L2, L1; k = 1..min(n,{k}). \
+         under the affine images id, +1e3 (budgets <= 6 in f32), x1e-3 (f32 and f64) and 1e3+1e-3x (f64 only); metrics L2, L1; k = 1..min(n,{k}). \
          trajectory cases = dataset x float x metric x k x Precomputed start (EVERY distinct k-sub-multiset of the data rows + 2 off-data starts, one with a permanently empty cluster) x tolerance {{1e-4,1e-2}}; \
          per case the real fit runs with max_n_iterations(m), n_runs(1) for every m = 1..={b} and is compared with the set of states the reference m_k-means step reaches after m transitions (ties branch). \
          seeded cases = dataset (id image; all images for n<=3) x float x metric x k x {{random, kmeans++, kmeans||}} x seed 0..{s} x iteration cap {caps:?}, tolerance 1e-4; per case single-restart fits of restart 1..={r} and fits with n_runs = 2..={r} from the same seed. \
@@ -1210,7 +1237,10 @@ fn main() {
                                     queries: queries.clone(),
                                     init: init.clone(),
                                     init_from_data: from_data,
-                                    budgets,
+                                    // the +1e3 image in f32 has a coarse tie margin (centroid rounding error ~1e-3
+                                    // against unit spacing): near-ties persist and the reference branches at every
+                                    // step, so the budget stays at the quick bound there
+                                    budgets: if float == "f32" && img == "off1e3" { budgets.min(6) } else { budgets },
                                     init_kind: String::new(),
                                     seed: 0,
                                     max_runs: 0,
